@@ -488,6 +488,7 @@ def run_policy(rep: Report, prog: Program, PROP_: str, RULE_: str) -> None:
             c1 = sim.create(a, label=first, **kinds[first])
             c2 = sim.create(a, label=second, **kinds[second])
             sim.pump()
+            control = list(sim.sent)
             sim.sent.clear()
             sim.call(c1, "send", "one")
             sim.call(c2, "send", "two")
@@ -498,6 +499,14 @@ def run_policy(rep: Report, prog: Program, PROP_: str, RULE_: str) -> None:
         except Unknown as ex:
             raise AnalysisError(f"{RULE_} cannot evaluate [{first} then {second}]: {ex}")
         problems = []
+        # the channel announcement and its acknowledgement are control messages: always reliable and ordered, whatever the channel is
+        if len(control) < 4:
+            problems.append(f"only {len(control)} control messages (2 x DATA_CHANNEL_OPEN, 2 x ACK expected) were handed to _send() while the channels opened")
+        for sid, _pp, data, kw in control:
+            if kw.get("expiry") is not None or kw.get("max_retransmits") is not None or kw.get("ordered", True) is not True:
+                problems.append(f"a DATA_CHANNEL_OPEN / ACK on stream {sid} is sent with expiry={kw.get('expiry')!r}, max_retransmits={kw.get('max_retransmits')!r}, ordered={kw.get('ordered', True)!r}: "
+                                "if that one datagram is lost the announcement is abandoned instead of retransmitted and the channel never opens")
+                break
         user = [x for x in sim.sent if x[2] in (b"one", b"two")]
         if len(user) != 2:
             problems.append(f"{len(user)} user messages were handed to _send()")
@@ -519,3 +528,62 @@ def run_policy(rep: Report, prog: Program, PROP_: str, RULE_: str) -> None:
                                 f"abandoned (or kept) wrongly", construct=f"policy: {first} then {second}"))
         else:
             rep.ok(RULE_, label, sample="stream id, expiry, max_retransmits and ordered are those of each message's own channel")
+
+
+def run_open_first(rep: Report, prog: Program, PROP_: str, RULE_: str) -> None:
+    """An in-band channel may carry user data only after the peer has processed its DATA_CHANNEL_OPEN (that is what `open` on DATA_CHANNEL_ACK guarantees): a message that
+    overtakes the announcement reaches a stream the peer knows nothing about, is acknowledged at the SCTP level and dropped - lost for good on a reliable channel."""
+    rep.rule(RULE_, "whatever is sent once a channel reports `open` is delivered, also when later datagrams overtake the channel announcement", min_instances=3)
+    anchor = prog.func(T + "._set_state")
+    for ordered, explicit_id in ((False, 1), (True, 1), (False, None)):
+        label = f"{'ordered' if ordered else 'unordered'} in-band channel{' with an explicit id' if explicit_id is not None else ''} created before the association is up; data overtakes the announcement"
+        sim = Sim(prog)
+        try:
+            a, b = sim.pair()
+            a._association_state = "COOKIE_WAIT"
+            b._association_state = "CLOSED"
+            ch = sim.create(a, label="early", ordered=ordered, id=explicit_id)
+            for t in (a, b):
+                sim.call(t, "_set_state", "ESTABLISHED")
+            sent = []
+            # run until the channel reports open (or nothing is left to do), then the application sends at once
+            for _ in range(50):
+                if sim.get(ch, "readyState") == "open" or not sim.tasks:
+                    break
+                sim.step()
+            opened_early = sim.get(ch, "readyState") == "open"
+            if opened_early:
+                for m in ("m1", "m2", "m3"):
+                    sim.call(ch, "send", m)
+                    sent.append(m)
+                # let the local flush tasks run (they turn the queued announcement and messages into datagrams), keep the datagrams in transit
+                for _ in range(50):
+                    local = [j for j in sim.tasks if j[0] == "task"]
+                    if not local:
+                        break
+                    sim.tasks.remove(local[0])
+                    sim._run(local[0])
+                # the network reorders: everything queued towards the peer that is not the announcement goes first
+                jobs = list(sim.tasks)
+                sim.tasks.clear()
+                late = [j for j in jobs if j[0] == "data" and j[3] == 50 and j[1] is b]
+                for j in [j for j in jobs if j not in late] + late:
+                    sim.tasks.append(j)
+            sim.pump()
+            if not sent and sim.get(ch, "readyState") == "open":
+                for m in ("m1", "m2", "m3"):
+                    sim.call(ch, "send", m)
+                    sent.append(m)
+                sim.pump()
+        except Raised as ex:
+            rep.fail(mk_finding(prog, PROP_, RULE_, anchor, getattr(ex, "node", None), f"[{label}] raises {ex.name}", construct=f"open-first raises {ex.name}"))
+            continue
+        except Unknown as ex:
+            raise AnalysisError(f"{RULE_} cannot evaluate [{label}]: {ex}")
+        remote = [e[1] for e in b.events if e[0] == "datachannel"]
+        got = [e[1] for r in remote for e in r.events if e[0] == "message"]
+        if sorted(got) == sorted(sent) and (not ordered or got == sent) and sent:
+            rep.ok(RULE_, label, sample=f"{len(sent)} messages sent after `open`, all delivered")
+        else:
+            rep.fail(mk_finding(prog, PROP_, RULE_, anchor, anchor.node, f"[{label}] the channel reported `open` and the application sent {sent}; the peer's channel received {got}: the channel opens before "
+                                "the peer has acknowledged its announcement, messages that overtake DATA_CHANNEL_OPEN are acknowledged and dropped", construct="channel open before its announcement was acknowledged"))
